@@ -67,8 +67,9 @@ func seqProject(seed uint64, name string, specs []rotSpec) *proj.Project {
 }
 
 type matchScenario struct {
-	name  string
-	specs []rotSpec
+	name    string
+	specs   []rotSpec
+	preCrop string // "" = the generated pre-crop; else the crop of rotation entry 1 (harvested at the start, never sown)
 }
 
 func c18Scenarios() []matchScenario {
@@ -76,19 +77,27 @@ func c18Scenarios() []matchScenario {
 		{"WR+WRA+WRC", []rotSpec{
 			{crop: "WR", sowM: 9, sowD: 28, harM: 8, harD: 1, overWinter: true},
 			{crop: "WRA", sowM: 8, sowD: 28, harM: 7, harD: 20, overWinter: true},
-			{crop: "WRC", sowM: 8, sowD: 28, harM: 7, harD: 20, overWinter: true}}},
+			{crop: "WRC", sowM: 8, sowD: 28, harM: 7, harD: 20, overWinter: true}}, ""},
 		{"SOY+varieties", []rotSpec{
 			{crop: "SOY", sowM: 5, sowD: 5, harM: 9, harD: 28},
 			{crop: "SOY", variety: "0", sowM: 5, sowD: 5, harM: 9, harD: 28},
-			{crop: "SOY", variety: "00", sowM: 5, sowD: 5, harM: 9, harD: 28}}},
+			{crop: "SOY", variety: "00", sowM: 5, sowD: 5, harM: 9, harD: 28}}, ""},
 		{"permanent-GR-x3", []rotSpec{
 			{crop: "GR", sowM: 4, sowD: 1, harM: 6, harD: 15},
 			{crop: "GR", sowM: 4, sowD: 1, harM: 8, harD: 10, sowAfterHarDay: 1},
-			{crop: "GR", sowM: 4, sowD: 1, harM: 10, harD: 5, sowAfterHarDay: 1}}},
+			{crop: "GR", sowM: 4, sowD: 1, harM: 10, harD: 5, sowAfterHarDay: 1}}, ""},
 		{"permanent-AA-x3", []rotSpec{
 			{crop: "AA", sowM: 4, sowD: 1, harM: 6, harD: 20},
 			{crop: "AA", sowM: 4, sowD: 1, harM: 8, harD: 15, sowAfterHarDay: 1},
-			{crop: "AA", sowM: 4, sowD: 1, harM: 10, harD: 1, sowAfterHarDay: 1}}},
+			{crop: "AA", sowM: 4, sowD: 1, harM: 10, harD: 1, sowAfterHarDay: 1}}, ""},
+		// a standing sward: the preceding crop is the same permanent crop, the first sown entry is a real sowing all the
+		// same (the readers and PhytoOut take the initial N concentrations from the file for it)
+		{"standing-AA-x2", []rotSpec{
+			{crop: "AA", sowM: 4, sowD: 1, harM: 6, harD: 20},
+			{crop: "AA", sowM: 4, sowD: 1, harM: 8, harD: 15, sowAfterHarDay: 1}}, "AA"},
+		{"standing-GR-x2", []rotSpec{
+			{crop: "GR", sowM: 4, sowD: 1, harM: 6, harD: 15},
+			{crop: "GR", sowM: 4, sowD: 1, harM: 8, harD: 10, sowAfterHarDay: 1}}, "GR"},
 	}
 }
 
@@ -116,6 +125,9 @@ func c18FileMatch(c *vh.Ctx) {
 			}
 			mk := func() *proj.Project {
 				p := seqProject(seed, name, sc.specs)
+				if sc.preCrop != "" {
+					p.Rot[0].Crop = sc.preCrop
+				}
 				if yml {
 					p.Cfg["CropParameterFormat"] = "yml"
 				}
@@ -146,6 +158,12 @@ func c18FileMatch(c *vh.Ctx) {
 			ovrs := []ovr{
 				{owParams[owIndex("MAXAMAX")], 0, func(t classicTok) float64 { return vh.RoundTo(t.MAXAMAX*0.55, 1) }},
 				{owParams[owIndex("TSUM")], 2, func(t classicTok) float64 { return vh.RoundTo(t.Stages[1].TSUM*1.4, 0) }},
+			}
+			if sc.preCrop != "" {
+				// the initial N concentrations: applied at a real sowing, not at the regrowth of a permanent crop
+				ovrs = append(ovrs,
+					ovr{owParams[owIndex("INITCONCNBIOM")], 0, func(t classicTok) float64 { return vh.RoundTo(t.INITB*0.6+0.3, 2) }},
+					ovr{owParams[owIndex("INITCONCNROOT")], 0, func(t classicTok) float64 { return vh.RoundTo(t.INITR*1.5+0.2, 2) }})
 			}
 			for _, target := range distinctFiles(sc.specs) {
 				lines, err := readLines(filepath.Join(pdir, target))
